@@ -248,6 +248,22 @@ impl User {
     }
 
     fn validate(&self) -> Result<(), Error> {
+        if self.pool_size == 0 {
+            error!("pool_size must be greater than 0");
+            return Err(Error::BadConfig);
+        }
+
+        for (name, value) in [
+            ("connect_timeout", self.connect_timeout),
+            ("idle_timeout", self.idle_timeout),
+            ("server_lifetime", self.server_lifetime),
+        ] {
+            if value == Some(0) {
+                error!("{} must be greater than 0", name);
+                return Err(Error::BadConfig);
+            }
+        }
+
         if let Some(min_pool_size) = self.min_pool_size {
             if min_pool_size > self.pool_size {
                 error!(
@@ -772,6 +788,17 @@ impl Pool {
             None => None,
         };
 
+        for (name, value) in [
+            ("connect_timeout", self.connect_timeout),
+            ("idle_timeout", self.idle_timeout),
+            ("server_lifetime", self.server_lifetime),
+        ] {
+            if value == Some(0) {
+                error!("{} must be greater than 0", name);
+                return Err(Error::BadConfig);
+            }
+        }
+
         if let DefaultShard::Shard(shard_number) = self.default_shard {
             if shard_number >= self.shards.len() {
                 error!("Invalid shard {:?}", shard_number);
@@ -921,6 +948,12 @@ impl Shard {
 
         for server in &self.servers {
             dup_check.insert(server);
+
+            // Mirrors are configured in `mirrors`, a server is a primary or a replica.
+            if server.role == Role::Mirror {
+                error!("Shard {} has a server with the mirror role", self.database);
+                return Err(Error::BadConfig);
+            }
 
             // Check that we define only zero or one primary.
             if server.role == Role::Primary {
@@ -1483,6 +1516,18 @@ impl Config {
             );
 
             return Err(Error::BadConfig);
+        }
+
+        // The connection pools cannot be built with these (bb8 asserts they are non-zero).
+        for (name, value) in [
+            ("connect_timeout", self.general.connect_timeout),
+            ("idle_timeout", self.general.idle_timeout),
+            ("server_lifetime", self.general.server_lifetime),
+        ] {
+            if value == 0 {
+                error!("{} must be greater than 0", name);
+                return Err(Error::BadConfig);
+            }
         }
 
         for (name, pool) in self.pools.iter() {
